@@ -291,10 +291,13 @@ class SetEval:
                 return self.member(q, e[2]) or self.member(q, e[3])
             if op == "BitXor":
                 return self.member(q, e[2]) != self.member(q, e[3])
-            if op in ("Shr", "ShrUnchecked") and e[3][0] == "const":
-                return q + e[3][1] <= 63 and self.member(q + e[3][1], e[2])
-            if op in ("Shl", "ShlUnchecked") and e[3][0] == "const":
-                return q - e[3][1] >= 0 and self.member(q - e[3][1], e[2])
+            if op in ("Shr", "ShrUnchecked", "Shl", "ShlUnchecked"):
+                n = e[3][1] if e[3][0] == "const" else self.scalar(e[3])     # `1 << square`: the amount is a scalar of the site
+                if not (0 <= n <= 63):
+                    raise Unknown("shift by %r" % (n,))
+                if op.startswith("Shr"):
+                    return q + n <= 63 and self.member(q + n, e[2])
+                return q - n >= 0 and self.member(q - n, e[2])
             raise Unknown("set operator " + op)
         if k == "un" and e[1] == "Not":
             return not self.member(q, e[2])
@@ -456,7 +459,9 @@ def emitter_rule(ctx, facts, rid):
                             # not a possible move: try the boards on which a wrong emitter would be most likely to fire
                             occ = (1 << S)
                             scs = [{"board_src": c, "dst": dc, "mid": 0, "ep": ep, "right": {}, "attacked": {}, "all": occ | ((1 << D) if dc else 0)}
-                                   for dc in (0, cell(1 - C, KNIGHT)) for ep in ((None,) if kind != 5 else (None, S + 1 if (S & 7) < 7 else S - 1))]
+                                   for dc in (0, cell(1 - C, KNIGHT))
+                                   # marks next to S in index order (also across the board edge) and the one mark that makes D the capture square
+                                   for ep in ((None,) if kind != 5 else sorted({S - 1, S + 1, D - fwd}) + [None])]
                         for sc in scs:
                             if sc["ep"] is not None and not (0 <= sc["ep"] <= 63):
                                 continue
